@@ -252,8 +252,19 @@ def main():
             continue
         for v in e["violations"]:
             cls = v.get("class") or ""
+            if not cls and cfg.get("classify") == "first-preemption":
+                # schedule-dependent violations are classified by the operation before which the
+                # first preemption happened (the window that was hit)
+                for step in v.get("schedule") or []:
+                    m = re.match(r"preempt g\d+\(.*?\) before (.+)", step)
+                    if m:
+                        cls = "preempt-before-" + m.group(1).replace(" ", "-")
+                        break
+                v["class"] = cls
             if cls and ("class:" + cls) in known:
-                known_lines.append("KNOWN-FINDING: property=%s class:%s -- %s" % (pid, cls, known["class:" + cls]))
+                line = "KNOWN-FINDING: property=%s class:%s -- %s" % (pid, cls, known["class:" + cls])
+                if line not in known_lines:
+                    known_lines.append(line)
                 continue
             violations_new.append(v)
 
